@@ -30,13 +30,22 @@ CLAIMED = {
     "C03": ("15 theorems: the written index satisfies price'*(lastValue+netFlows) = lastPrice*value (market value) / the additive form (fixed income), zero base raises, "
             "first write gives PAR, a flow that is the only event of a date leaves the index unchanged and a non-flow moves it, homogeneity of degree 0 of the write, and the "
             "recurrence across updNode/updRoot and across a whole day of adjust/allocate/transact between an opening and a closing update; plus a Lean witness that a flow booked "
-            "AFTER same-date P&L does move the index (the recurrence still holds). Step correspondence (C03 footprint); monitors: recurrence on every closed date of histories "
+            "AFTER same-date P&L does move the index (the recurrence still holds). Fragment C03_run: the invariant `IdxInv` (price and value are those of the last index write) is preserved by "
+            "every public call incl. flatten/close/rebalance/reads and the bankruptcy branch (`run_root_index`, generic lift), `btDay_index` for any public algos (recurrence, or the documented "
+            "alternative: the closing update found the value within TOL and wrote nothing - Lean witness that this alternative is real: +50 flow and -50 non-flow on one date), "
+            "`btLoop_index_product` (chain of consecutive closes, telescoped product, rows hold the closing figures), `btRun_index_start` (PAR on the synthetic row), "
+            "`initial_capital_is_flow_neutral`, `cash_only_index_constant` (with the Lean witness that a flow below TOL is not written), `scale_invariance_run_partial` (closing figures scaled "
+            "by k give the same index; that the engine scales them cannot hold unconditionally because TOL is absolute - witness). Step correspondence (C03 footprint); monitors: recurrence on every closed date of histories "
             "and generated backtests with CapitalFlow, cash-only strategies under random flows, scaled-capital twins.",
             "DESIGN 7 C03"),
     "C07": ("15 theorems: transact books exactly q*p*m + half-spread (or custom-price difference) as outlay, commission(q, p*m) as fee, one non-flow adjustment on the security's own "
             "parent and nothing else (frame), zero quantity is a no-op, adjust books amount/fee/flow and nothing else, probes of the sizing search are pure, accumulators reset exactly "
             "on a date change, sub-strategy allocation debits the parent as a non-flow and credits the child as a flow, the root's debit and credit cancel, rows of cash/fees/flows "
-            "hold the state after update, deep operations reach no ancestor above the parent, and the per-node ledger of an allocation. Step correspondence (C07 footprint); monitors: "
+            "hold the state after update, deep operations reach no ancestor above the parent, and the per-node ledger of an allocation. Fragment C07_day (14 theorems): the node balance bal_d = cash + fees - flows + own securities' "
+            "(outlay row + pending outlay) + sub-strategies' flows is kept by EVERY public call other than a direct adjust, on every strategy node at every depth (`ledger_step`, `ledger_run`); "
+            "`opening_update_ledger` (each strategy receives exactly the carry parked on its own securities, accumulators reset), `btDay_ledger` / `btDay_ledger_rows` (the property's ledger "
+            "equation per node and date, read from the recorded rows of the date, for any public algos), `btLoop_ledger`, `btRun_ledger`, `trade_charged_once` / `allocate_charged_once` "
+            "(one non-flow adjustment on the security's own parent, nobody else touched, no flow created), `flows_created`, `bankruptcy_day_ledger`. Step correspondence (C07 footprint); monitors: "
             "ledger equation per node and closed date, every executed trade checked from an external trade log.",
             "DESIGN 7 C07"),
     "C08": ("23 theorems: secUpdate, updNode (every tree, mutual induction), updRoot (bankruptcy branch included) and refresh are idempotent (under NoDust: is_zero(position) -> "
